@@ -7,6 +7,7 @@
 (***************************************************************************)
 EXTENDS Alg, BigNat
 
+CeilDiv(a, b) == (a + b - 1) \div b
 (* P(m, i, bs): block i of message m; index 0 is supplied by the caller *)
 Blk(m, i, bs) == BlockAt(m, i, bs)
 
@@ -19,11 +20,17 @@ Flatten(f, n) == ConcatBlocks(f, 1, n)
 (* CBC:  C_0 = IV,  C_i = E(P_i xor C_{i-1});   P_i = D(C_i) xor C_{i-1}   *)
 RECURSIVE CbcC(_, _, _, _, _)
 CbcC(c, iv, m, bs, i) == IF i = 0 THEN iv ELSE EncB(c, XorBlk(Blk(m, i, bs), CbcC(c, iv, m, bs, i - 1)))
-CbcEnc(c, iv, m, bs) == Flatten([i \in 1..NBlocks(m, bs) |-> CbcC(c, iv, m, bs, i)], NBlocks(m, bs))
+(* the same chain evaluated front to back (each C_i computed once); MC_Ref checks it against the indexed form *)
+RECURSIVE CbcCFrom(_, _, _, _, _)
+CbcCFrom(c, prev, m, bs, i) ==
+  IF i > NBlocks(m, bs) THEN <<>>
+  ELSE LET ci == EncB(c, XorBlk(Blk(m, i, bs), prev)) IN ci \o CbcCFrom(c, ci, m, bs, i + 1)
+CbcEncIndexed(c, iv, m, bs) == Flatten([i \in 1..NBlocks(m, bs) |-> CbcC(c, iv, m, bs, i)], NBlocks(m, bs))
+CbcEnc(c, iv, m, bs) == CbcCFrom(c, iv, m, bs, 1)
 CbcP(c, iv, m, bs, i) == XorBlk(DecB(c, Blk(m, i, bs)), IF i = 1 THEN iv ELSE Blk(m, i - 1, bs))
 CbcDec(c, iv, m, bs) == Flatten([i \in 1..NBlocks(m, bs) |-> CbcP(c, iv, m, bs, i)], NBlocks(m, bs))
 (* public chaining value after n blocks: the last ciphertext block *)
-CbcStateEnc(c, iv, m, bs) == CbcC(c, iv, m, bs, NBlocks(m, bs))
+CbcStateEnc(c, iv, m, bs) == LET n == NBlocks(m, bs)  e == CbcEnc(c, iv, m, bs) IN IF n = 0 THEN iv ELSE Blk(e, n, bs)
 CbcStateDec(c, iv, m, bs) == IF NBlocks(m, bs) = 0 THEN iv ELSE Blk(m, NBlocks(m, bs), bs)
 
 --------------------------------------------------------------------------
@@ -35,8 +42,17 @@ PcbcEncCS(c, iv, m, bs, i) ==
   ELSE LET s  == PcbcEncCS(c, iv, m, bs, i - 1)[2]
            ci == EncB(c, XorBlk(Blk(m, i, bs), s))
        IN  <<ci, XorBlk(Blk(m, i, bs), ci)>>
-PcbcEnc(c, iv, m, bs) == Flatten([i \in 1..NBlocks(m, bs) |-> PcbcEncCS(c, iv, m, bs, i)[1]], NBlocks(m, bs))
-PcbcStateEnc(c, iv, m, bs) == PcbcEncCS(c, iv, m, bs, NBlocks(m, bs))[2]
+RECURSIVE PcbcFrom(_, _, _, _, _, _)
+(* front-to-back evaluation, enc = TRUE/FALSE; returns <<output, final S>> *)
+PcbcFrom(enc, c, s, m, bs, i) ==
+  IF i > NBlocks(m, bs) THEN <<<<>>, s>>
+  ELSE LET x == Blk(m, i, bs)
+           o == IF enc THEN EncB(c, XorBlk(x, s)) ELSE XorBlk(DecB(c, x), s)
+           r == PcbcFrom(enc, c, XorBlk(x, o), m, bs, i + 1)
+       IN  <<o \o r[1], r[2]>>
+PcbcEncIndexed(c, iv, m, bs) == Flatten([i \in 1..NBlocks(m, bs) |-> PcbcEncCS(c, iv, m, bs, i)[1]], NBlocks(m, bs))
+PcbcEnc(c, iv, m, bs) == PcbcFrom(TRUE, c, iv, m, bs, 1)[1]
+PcbcStateEnc(c, iv, m, bs) == PcbcFrom(TRUE, c, iv, m, bs, 1)[2]
 RECURSIVE PcbcDecPS(_, _, _, _, _)
 (* returns <<P_i, S_i>> *)
 PcbcDecPS(c, iv, m, bs, i) ==
@@ -44,8 +60,9 @@ PcbcDecPS(c, iv, m, bs, i) ==
   ELSE LET s  == PcbcDecPS(c, iv, m, bs, i - 1)[2]
            pi == XorBlk(DecB(c, Blk(m, i, bs)), s)
        IN  <<pi, XorBlk(pi, Blk(m, i, bs))>>
-PcbcDec(c, iv, m, bs) == Flatten([i \in 1..NBlocks(m, bs) |-> PcbcDecPS(c, iv, m, bs, i)[1]], NBlocks(m, bs))
-PcbcStateDec(c, iv, m, bs) == PcbcDecPS(c, iv, m, bs, NBlocks(m, bs))[2]
+PcbcDecIndexed(c, iv, m, bs) == Flatten([i \in 1..NBlocks(m, bs) |-> PcbcDecPS(c, iv, m, bs, i)[1]], NBlocks(m, bs))
+PcbcDec(c, iv, m, bs) == PcbcFrom(FALSE, c, iv, m, bs, 1)[1]
+PcbcStateDec(c, iv, m, bs) == PcbcFrom(FALSE, c, iv, m, bs, 1)[2]
 
 --------------------------------------------------------------------------
 (* IGE: the double-length IV is C_0 followed by P_0;                       *)
@@ -57,17 +74,25 @@ IgeC(c, iv, m, bs, i) ==
   IF i = 0 THEN IgeC0(iv, bs)
   ELSE XorBlk(EncB(c, XorBlk(Blk(m, i, bs), IgeC(c, iv, m, bs, i - 1))),
               IF i = 1 THEN IgeP0(iv, bs) ELSE Blk(m, i - 1, bs))
-IgeEnc(c, iv, m, bs) == Flatten([i \in 1..NBlocks(m, bs) |-> IgeC(c, iv, m, bs, i)], NBlocks(m, bs))
-IgeStateEnc(c, iv, m, bs) ==
-  LET n == NBlocks(m, bs) IN IF n = 0 THEN iv ELSE IgeC(c, iv, m, bs, n) \o Blk(m, n, bs)
+RECURSIVE IgeFrom(_, _, _, _, _, _, _)
+(* front-to-back evaluation; pc / pp = previous ciphertext / plaintext block; returns <<output, C_n, P_n>> *)
+IgeFrom(enc, c, pc, pp, m, bs, i) ==
+  IF i > NBlocks(m, bs) THEN <<<<>>, pc, pp>>
+  ELSE LET x == Blk(m, i, bs)
+           o == IF enc THEN XorBlk(EncB(c, XorBlk(x, pc)), pp) ELSE XorBlk(DecB(c, XorBlk(x, pp)), pc)
+           r == IF enc THEN IgeFrom(enc, c, o, x, m, bs, i + 1) ELSE IgeFrom(enc, c, x, o, m, bs, i + 1)
+       IN  <<o \o r[1], r[2], r[3]>>
+IgeEncIndexed(c, iv, m, bs) == Flatten([i \in 1..NBlocks(m, bs) |-> IgeC(c, iv, m, bs, i)], NBlocks(m, bs))
+IgeEnc(c, iv, m, bs) == IgeFrom(TRUE, c, IgeC0(iv, bs), IgeP0(iv, bs), m, bs, 1)[1]
+IgeStateEnc(c, iv, m, bs) == LET r == IgeFrom(TRUE, c, IgeC0(iv, bs), IgeP0(iv, bs), m, bs, 1) IN r[2] \o r[3]
 RECURSIVE IgeP(_, _, _, _, _)
 IgeP(c, iv, m, bs, i) ==
   IF i = 0 THEN IgeP0(iv, bs)
   ELSE XorBlk(DecB(c, XorBlk(Blk(m, i, bs), IgeP(c, iv, m, bs, i - 1))),
               IF i = 1 THEN IgeC0(iv, bs) ELSE Blk(m, i - 1, bs))
-IgeDec(c, iv, m, bs) == Flatten([i \in 1..NBlocks(m, bs) |-> IgeP(c, iv, m, bs, i)], NBlocks(m, bs))
-IgeStateDec(c, iv, m, bs) ==
-  LET n == NBlocks(m, bs) IN IF n = 0 THEN iv ELSE Blk(m, n, bs) \o IgeP(c, iv, m, bs, n)
+IgeDecIndexed(c, iv, m, bs) == Flatten([i \in 1..NBlocks(m, bs) |-> IgeP(c, iv, m, bs, i)], NBlocks(m, bs))
+IgeDec(c, iv, m, bs) == IgeFrom(FALSE, c, IgeC0(iv, bs), IgeP0(iv, bs), m, bs, 1)[1]
+IgeStateDec(c, iv, m, bs) == LET r == IgeFrom(FALSE, c, IgeC0(iv, bs), IgeP0(iv, bs), m, bs, 1) IN r[2] \o r[3]
 
 --------------------------------------------------------------------------
 (* CFB (full block feedback): C_0 = IV, C_i = P_i xor E(C_{i-1}); a        *)
@@ -76,16 +101,21 @@ IgeStateDec(c, iv, m, bs) ==
 PartTail(m, bs) == Slice(m, NBlocks(m, bs) * bs + 1, Len(m))
 RECURSIVE CfbC(_, _, _, _, _)
 CfbC(c, iv, m, bs, i) == IF i = 0 THEN iv ELSE XorBlk(Blk(m, i, bs), EncB(c, CfbC(c, iv, m, bs, i - 1)))
-CfbEnc(c, iv, m, bs) ==
+RECURSIVE CfbCFrom(_, _, _, _, _)
+CfbCFrom(c, prev, m, bs, i) ==
+  IF i > NBlocks(m, bs) THEN (IF Len(m) = NBlocks(m, bs) * bs THEN <<>> ELSE XorPre(PartTail(m, bs), EncB(c, prev)))
+  ELSE LET ci == XorBlk(Blk(m, i, bs), EncB(c, prev)) IN ci \o CfbCFrom(c, ci, m, bs, i + 1)
+CfbEncIndexed(c, iv, m, bs) ==
   LET n == NBlocks(m, bs) IN
   Flatten([i \in 1..n |-> CfbC(c, iv, m, bs, i)], n)
     \o (IF Len(m) = n * bs THEN <<>> ELSE XorPre(PartTail(m, bs), EncB(c, CfbC(c, iv, m, bs, n))))
+CfbEnc(c, iv, m, bs) == CfbCFrom(c, iv, m, bs, 1)
 CfbDec(c, iv, m, bs) ==
   LET n == NBlocks(m, bs)
       prev(i) == IF i = 0 THEN iv ELSE Blk(m, i, bs)
   IN  Flatten([i \in 1..n |-> XorBlk(Blk(m, i, bs), EncB(c, prev(i - 1)))], n)
         \o (IF Len(m) = n * bs THEN <<>> ELSE XorPre(PartTail(m, bs), EncB(c, prev(n))))
-CfbStateEnc(c, iv, m, bs) == CfbC(c, iv, m, bs, NBlocks(m, bs))
+CfbStateEnc(c, iv, m, bs) == LET n == NBlocks(m, bs)  e == CfbEnc(c, iv, m, bs) IN IF n = 0 THEN iv ELSE Blk(e, n, bs)
 CfbStateDec(c, iv, m, bs) == IF NBlocks(m, bs) = 0 THEN iv ELSE Blk(m, NBlocks(m, bs), bs)
 
 --------------------------------------------------------------------------
@@ -116,8 +146,12 @@ RECURSIVE OfbO(_, _, _)
 OfbO(c, iv, i) == IF i = 0 THEN iv ELSE EncB(c, OfbO(c, iv, i - 1))
 (* keystream byte at 0-based offset p *)
 OfbKsByte(c, iv, bs, p) == OfbO(c, iv, (p \div bs) + 1)[(p % bs) + 1]
-OfbApply(c, iv, m, bs) == [j \in 1..Len(m) |-> XorB(m[j], OfbKsByte(c, iv, bs, j - 1))]
-OfbState(c, iv, m, bs) == OfbO(c, iv, NBlocks(m, bs))
+RECURSIVE OfbKsFrom(_, _, _)
+(* O_1 O_2 ... O_n concatenated, each computed once *)
+OfbKsFrom(c, prev, n) == IF n = 0 THEN <<>> ELSE LET o == EncB(c, prev) IN o \o OfbKsFrom(c, o, n - 1)
+OfbApplyIndexed(c, iv, m, bs) == [j \in 1..Len(m) |-> XorB(m[j], OfbKsByte(c, iv, bs, j - 1))]
+OfbApply(c, iv, m, bs) == XorPre(m, OfbKsFrom(c, iv, CeilDiv(Len(m), bs)))
+OfbState(c, iv, m, bs) == LET n == NBlocks(m, bs)  k == OfbKsFrom(c, iv, n) IN IF n = 0 THEN iv ELSE Blk(k, n, bs)
 
 --------------------------------------------------------------------------
 (* CTR, six flavours.  The counter field is the LAST fl bytes read big     *)
@@ -160,7 +194,6 @@ Pkcs7Unpad(p) == Slice(p, 1, Len(p) - ValOf(p[Len(p)]))
 (*          C_1 .. C_{n-2}, C*_{n-1} (first d bytes), C_n.                 *)
 (* CS2: if d = b same as CS1, else exchange the last two.  CS3: always     *)
 (* exchange the last two (when there are two).  n = 1 is plain CBC.        *)
-CeilDiv(a, b) == (a + b - 1) \div b
 ZeroPad(m, bs) == m \o Zeros(CeilDiv(Len(m), bs) * bs - Len(m))
 CsSwap(v, d, bs, n) == n >= 2 /\ (v = 3 \/ (v = 2 /\ d < bs))
 CsLayout(v, C, L, bs) ==    \* C: the n full ciphertext blocks concatenated; output has length L
